@@ -177,6 +177,7 @@ class MinErrorFlow():
 
         self._solution = None
         self._is_solved = None
+        self._second_phase_encoded = False
         self.solve_statistics = dict()
 
         self.edge_vars = {}
@@ -375,6 +376,15 @@ class MinErrorFlow():
         """
         utils.logger.info(f"{__name__}: solving with graph id = {utils.fpid(self.G)}")
         start_time = time.perf_counter()
+        if self._second_phase_encoded:
+            # A previous call of solve() replaced the solver by the one of the second phase (few flow values):
+            # we start again from the first-phase model, so that calling solve() again gives the same result
+            self._create_solver()
+            self._encode_flow()
+            self._encode_min_sum_errors_objective()
+            self._second_phase_encoded = False
+            self._solution = None
+            self.edge_sol = {}
         self.solver.optimize()
         self.solve_statistics[f"milp_solve_time"] = (time.perf_counter() - start_time)
 
@@ -415,6 +425,7 @@ class MinErrorFlow():
                 ))
 
                 utils.logger.info(f"{__name__}: re-solving now by minimizing the number of different flow values within 1 + epsilon tolerance to the objective value, i.e. <=(1+{self.different_flow_values_epsilon})*{objective_value}")
+                self._second_phase_encoded = True
                 self._create_solver()
                 self._encode_flow()
                 self._encode_different_flow_values_and_objective(
